@@ -91,7 +91,7 @@ func genFrac(r *rand.Rand, dyadic bool, remaining *int) (int, int) {
 	return n, den
 }
 
-var allKeys = []string{"a", "b", "c", "d", "e", "zz", "", "A", "B"}
+var allKeys = []string{"a", "b", "c", "d", "e", "zz", "", "A", "B", "\u0130"} // U+0130: an upper-case letter whose lower-case form is longer in UTF-8
 
 func build(r *rand.Rand) (*env, rt.J) {
 	e := &env{m: &model{}, lparts: map[*part]*strategy.LookupPartition{}, pparts: map[*part]*strategy.PredicatePartition{},
@@ -185,7 +185,7 @@ func (e *env) newPred(r *rand.Rand, p *part) *strategy.PredicatePartition {
 	set := map[string]bool{}
 	var f func(context.Context) bool
 	if r.IntN(3) == 0 { // the bundled string matcher, both flavours, patterns in either case
-		k := []string{"a", "b", "c", "A", "B"}[r.IntN(5)]
+		k := []string{"a", "b", "c", "A", "B", "\u0130"}[r.IntN(6)]
 		if r.IntN(2) == 0 {
 			set[strings.ToLower(k)], set[strings.ToUpper(k)] = true, true
 			f = matchers.StringPredicateMatcher(k, true)
